@@ -15,10 +15,10 @@ ModeEv(e) ==
 (* holds at least every acknowledged (consumed) sample / packet.            *)
 CrashEv(e) ==
   /\ Chk(e.prefix_ok, "crash_prefix")
-  /\ Chk(e.file_len >= e.acked * e.unit, "crash_durable")
+  /\ Chk(e.file_len >= e.acked_bytes, "crash_durable")
   \* killed right after the consume of a work() call: everything fed so far has
   \* been consumed, so all of it must be in the file already
-  /\ Chk((e.point = "sink_after_consume" /\ e.killed) => e.file_len >= e.fed * e.unit, "consumed_not_on_disk")
+  /\ Chk((e.point = "sink_after_consume" /\ e.killed) => e.file_len >= e.fed_bytes, "consumed_not_on_disk")
   /\ Chk(e.finished => e.file_len = e.total, "crash_complete")
 TraceNext ==
   /\ l <= Len(Rec)
